@@ -72,12 +72,11 @@ func (d *Decoder) decodeNegInt(majorByte byte) (i int64, err error) {
 	if err != nil {
 		return 0, err
 	}
-	pos := ui + 1
-	if pos > uint64(-math.MinInt64) {
+	if ui > uint64(math.MaxInt64) {
 		return -1, errors.New("cbor: negative integer out of rage of int64 type")
 	}
 
-	return -int64(pos), nil
+	return -1 - int64(ui), nil
 }
 
 // Decode expecting a positive integer.
